@@ -99,7 +99,7 @@ def translate_bootstrap_ci(repo):
     if len(b) != 19:
         raise Reject(f"bc/bca branch has {len(b)} statements, expected 19")
     pins = {0: "if theta_hat is None:\n    raise ValueError(f'Must provide theta_hat when using method {method}.')",
-            1: "theta_hat = np.asarray(theta_hat)", 2: "theta_hat = theta_hat[np.newaxis]", 3: "nb_samples = theta.shape[0]",
+            1: "theta_hat = np.asarray(theta_hat, dtype=float)", 2: "theta_hat = theta_hat[np.newaxis]", 3: "nb_samples = theta.shape[0]",
             4: "metric_shape = theta.shape[1:]", 5: "theta = np.reshape(theta, (nb_samples, -1))",
             6: "theta_hat = np.reshape(theta_hat, (1, -1))", 7: "metric_size = theta.shape[-1]",
             8: "nb_not_nan = np.sum(~np.isnan(theta), axis=0)", 9: "p0 = np.sum(theta <= theta_hat, axis=0) / nb_not_nan",
